@@ -247,8 +247,9 @@ Definition ginit : ghost := ginit_with [].
 Definition gens (fl hi : nat) : list nat := seq fl (S hi - fl).
 
 Definition answer_ok (k : kind) (ep : N) (idxs : list N) (fl hi : nat) (res : list duty) (m : N) : bool :=
+  let tabs := map (asg k ep) (gens fl hi) in
   forallb (fun d => mem (vidx d) idxs) res
-  && forallb (fun i => existsb (fun g => list_eqb duty_eqb (of_val i res) (of_val i (asg k ep g))) (gens fl hi)) idxs
+  && forallb (fun i => existsb (fun t => list_eqb duty_eqb (of_val i res) (of_val i t)) tabs) idxs
   && existsb (fun g => N.eqb m (metaf k ep g)) (gens fl hi).
 
 Definition check_ans (g : ghost) (l : label) : bool :=
@@ -356,19 +357,21 @@ Local Open Scope N_scope.
 
 Definition kind_num (k : kind) : N := match k with KProp => 0 | KAtt => 1 | KSync => 2 end.
 
+Definition mask32 : N := 4294967295.
+
 Definition mix (seed k ep g v : N) : N :=
-  let t := N.modulo ((((seed * 31 + k) * 37 + ep) * 41 + g) * 43 + v) 4294967296 in
-  N.modulo (t * 2654435761 + 974711) 4294967296.
+  let t := N.land ((((seed * 31 + k) * 37 + ep) * 41 + g) * 43 + v) mask32 in
+  N.land (t * 2654435761 + 974711) mask32.
 
 Definition cnt_of (k : kind) (h : N) : N :=
-  let c := N.modulo (N.div h 65536) 8 in
+  let c := N.land (N.shiftr h 16) 7 in
   match k with
   | KProp => nth (N.to_nat c) [0; 1; 1; 2; 1; 0; 3; 1] 0
   | KAtt => nth (N.to_nat c) [0; 1; 1; 1; 1; 0; 1; 1] 0
   | KSync => nth (N.to_nat c) [0; 1; 0; 1; 1; 0; 1; 0] 0
   end.
 
-Definition payload_of (ep h j : N) : N := ep * 32 + N.modulo (N.modulo (N.div h 256) 32 + 7 * j) 32.
+Definition payload_of (ep h j : N) : N := ep * 32 + N.land (N.land (N.shiftr h 8) 31 + 7 * j) 31.
 
 Definition nseq (n : N) : list N := map N.of_nat (seq 0 (N.to_nat n)).
 
@@ -379,4 +382,4 @@ Definition hasg (seed nv : N) (k : kind) (ep : N) (g : nat) : list duty :=
       if N.ltb j (cnt_of k h) then [(v, payload_of ep h j)] else []) (nseq nv)) [0; 1; 2].
 
 Definition hmeta (seed : N) (k : kind) (ep : N) (g : nat) : N :=
-  1 + N.modulo (N.div (mix seed (kind_num k) ep (N.of_nat g) 99) 65536) 1000.
+  1 + N.land (N.shiftr (mix seed (kind_num k) ep (N.of_nat g) 99) 16) 1023.
